@@ -18,7 +18,7 @@ Terms are nested tuples:
 """
 from .facts import callee_path
 
-TRY_BRANCH = "core::ops::Try::branch"
+TRY_BRANCH = "core::ops::try_trait::Try::branch"
 
 
 def is_call(t, name=None):
